@@ -8,6 +8,7 @@ self), and any tie-break among equal deadlines (`fire tok` is enabled for every 
 of minimal deadline).  `exec init sts = some s` says that `sts` is such an execution.
 -/
 import TboxModel.C02.Proofs
+import TboxModel.C02.Dead
 namespace Tbox.C02
 
 /-- Master statement: every callback ever made is legitimate (see `FiredOk`). -/
@@ -35,6 +36,18 @@ theorem C02_records_belong_to_enabled (sts : List Step) (s : State) (he : exec i
     (∀ j, (s.obj j).enabled = false → ∀ r ∈ s.timers, r.owner ≠ j) := by
   have h := exec_inv init sts init_inv s he
   exact ⟨fun r hr => ⟨(h.recs r hr).alive, (h.recs r hr).enabled⟩, fun j hj => no_rec_of_not_enabled h hj⟩
+
+/-- **destroyed is final**: once object `j` has been destroyed (after the execution `pre`), no
+continuation `post` — whatever it does, including passes, re-initialisation attempts and token
+slot reuse — ever makes another callback on it: the callbacks logged during `post` are all on
+other objects. -/
+theorem C02_destroyed_never_fires (pre post : List Step) (s s' : State) (j : Nat)
+    (h1 : exec init pre = some s) (h2 : exec s post = some s')
+    (hj : j < s.nObjs) (hd : (s.obj j).alive = false) :
+    ∀ e ∈ s'.log.take (s'.log.length - s.log.length), e.obj ≠ j := by
+  have hi := exec_inv init pre init_inv s h1
+  have hq : DeadQuiet j s.log.length s := ⟨hj, hd, by simp⟩
+  exact (exec_deadQuiet s post j s.log.length hi (Nat.le_refl _) hq s' h2).quiet
 
 /-- **deadline order**: within one pass deadlines are served in non-decreasing order. -/
 theorem C02_deadline_order (sts : List Step) (s : State) (he : exec init sts = some s) :
@@ -87,6 +100,9 @@ def demo : List Step :=
    .api (.enable 0), .api (.enable 1), .advance 7, .beginPass, .fire 1, .fire 1, .endPass]
 
 example : (exec init demo).isSome = true := by decide
+/-- `C02_destroyed_never_fires` is not vacuous: destroy object 1 while armed, then a late pass -/
+example : ((exec init [.newObj [], .newObj [], .api (.init 1 5 false), .api (.enable 1), .api (.destroy 1)]).map
+    (fun s => (decide (1 < s.nObjs), (s.obj 1).alive))) = some (true, false) := by decide
 example : (exec init demo).map (fun s => s.log.map (fun e => (e.obj, e.n, e.deadline))) =
     some [(0, 2, 7), (0, 1, 4)] := by decide
 /-- serving the one-shot first (tie-break the other way) is rejected only because it is not minimal -/
